@@ -31,17 +31,21 @@ sh("git checkout -- .", cwd=wt)
 meta["confirmed"] = bool(meta["demo_clean_exit"] == 0 and meta["patch_applies"] and meta["demo_patched_exit"] != 0 and not meta.get("suite_lost"))
 # run the checks against it
 results = {}
+# SEED_VERIFY_IN_WT=1: run the checks against the scratch worktree itself (POSE_REPO) instead of applying the patch to /repo — several seeds can then be verified at once
+in_wt = os.environ.get("SEED_VERIFY_IN_WT") == "1"
+target = wt if in_wt else "/repo"
+cenv = dict(os.environ, POSE_REPO=wt, VERIF_EVIDENCE_DIR=f"/tmp/sv-evidence-{sid}") if in_wt else None
 if meta["confirmed"]:
-    assert sh("git status --porcelain", cwd="/repo").stdout.strip() == "", "/repo is not clean"
-    a = sh(f"git apply {src}/patch.diff", cwd="/repo")
+    assert sh("git status --porcelain --untracked-files=no", cwd=target).stdout.strip() == "", target + " is not clean"
+    a = sh(f"git apply {src}/patch.diff", cwd=target)
     if a.returncode != 0:        # /repo has moved on (fix: commits) since the worktree was cut: apply with fuzz
-        a = sh(f"patch -p1 -F3 --no-backup-if-mismatch < {src}/patch.diff", cwd="/repo")
+        a = sh(f"patch -p1 -F3 --no-backup-if-mismatch < {src}/patch.diff", cwd=target)
         results["applied_with_fuzz"] = a.returncode == 0
     try:
         if a.returncode != 0:
             results["apply_error"] = (a.stdout + a.stderr)[-300:]
         for c in checks:
-            r = sh(f"./check {c} --tier quick", cwd="/verif")
+            r = sh(f"./check {c} --tier quick", cwd="/verif", env=cenv)
             lines = [l for l in r.stdout.splitlines() if l.startswith(("VIOLATION", "KNOWN-FINDING", "INFRA"))]
             results[c] = {"exit": r.returncode, "lines": lines[:4]}
             for l in lines:
@@ -53,8 +57,11 @@ if meta["confirmed"]:
                     except Exception:
                         pass
     finally:
-        sh("git checkout -- . && git clean -fdq -e nothing src", cwd="/repo")
-        sh("rm -f /verif/replays/*.json")
+        if in_wt:
+            sh("git checkout -- .", cwd=wt); sh(f"rm -rf /tmp/sv-evidence-{sid}")
+        else:
+            sh("git checkout -- . && git clean -fdq -e nothing src", cwd="/repo")
+            sh("rm -f /verif/replays/*.json")
 meta["checks"] = results
 meta["detected_by"] = sorted(c for c, r in results.items() if isinstance(r, dict) and r.get("exit") == 1)
 dst = os.path.join("/verif/seeded", sid)
